@@ -35,7 +35,27 @@ func Compare(t *Transaction, t2 *Transaction) compare.Order {
 			return o
 		}
 	}
-	return compare.Ordered(len(t.Postings), len(t2.Postings))
+	if o := compare.Ordered(len(t.Postings), len(t2.Postings)); o != compare.Equal {
+		return o
+	}
+	return compareTargets(t.Targets, t2.Targets)
+}
+
+// compareTargets orders the performance targets of two transactions; a
+// transaction without annotation (nil) comes before an empty annotation.
+func compareTargets(c1, c2 []*commodity.Commodity) compare.Order {
+	if (c1 == nil) != (c2 == nil) {
+		if c1 == nil {
+			return compare.Smaller
+		}
+		return compare.Greater
+	}
+	for i := 0; i < len(c1) && i < len(c2); i++ {
+		if o := commodity.Compare(c1[i], c2[i]); o != compare.Equal {
+			return o
+		}
+	}
+	return compare.Ordered(len(c1), len(c2))
 }
 
 // Builder builds transactions.
